@@ -24,6 +24,7 @@ const (
 	PtRouteOpts    Point = 8
 	PtBeforeUnlock Point = 9
 	PtBeforeStore  Point = 10
+	PtTryLock      Point = 11
 
 	PtAcquire Point = 32 // before the writer lock is requested
 	PtUser    Point = 33 // between two API calls of a task's program
@@ -36,7 +37,7 @@ const (
 
 var pointNames = map[Point]string{
 	PtLocked: "locked", PtBeforeLoad: "before_load", PtAfterLoad: "after_load", PtCommit: "commit", PtStored: "stored",
-	PtUnlocked: "unlocked", PtAbort: "abort", PtRouteOpts: "route_opts", PtBeforeUnlock: "before_unlock", PtBeforeStore: "before_store", PtAcquire: "acquire", PtUser: "user",
+	PtUnlocked: "unlocked", PtAbort: "abort", PtRouteOpts: "route_opts", PtBeforeUnlock: "before_unlock", PtBeforeStore: "before_store", PtTryLock: "try_lock", PtAcquire: "acquire", PtUser: "user",
 	PtHandler: "handler", PtIter: "iter", PtTxnFn: "txn_fn", PtHeld: "held",
 }
 
